@@ -9,7 +9,6 @@ pub const BYTE_LEN: usize = 8;
 const FRAGMENT_SIZE: u64 = 16 * 1024;
 const MAX_FRAGMENTS: u8 = 4  /* 11.9.3.8, NOTE */ ;
 const MIN_FRAGMENT_SIZE: u64 = FRAGMENT_SIZE;
-const MAX_FRAGMENTS_SIZE: u64 = FRAGMENT_SIZE * MAX_FRAGMENTS as u64;
 
 const LENGTH_127: u64 = 127;
 const LENGTH_16K: u64 = 16 * 1024;
@@ -298,8 +297,8 @@ impl<T: BitRead> PackedRead for T {
         if fragmentation_possible && bit_len >= LENGTH_16K {
             loop {
                 let ext_bit_len = self.read_length_determinant(None, None)?;
-                let ext_byte_len = byte_len - ((bit_len + ext_bit_len) + 7) / 8;
-                buffer.extend(core::iter::repeat(0x00).take(ext_byte_len as usize));
+                let new_byte_len = ((bit_len + ext_bit_len) + 7) / 8;
+                buffer.extend(core::iter::repeat(0x00).take((new_byte_len - byte_len) as usize));
                 self.read_bits_with_offset_len(
                     &mut buffer[..],
                     bit_len as usize,
@@ -307,7 +306,7 @@ impl<T: BitRead> PackedRead for T {
                 )?;
 
                 bit_len += ext_bit_len;
-                byte_len += ext_bit_len;
+                byte_len = new_byte_len;
 
                 if ext_bit_len < LENGTH_16K {
                     break;
@@ -641,19 +640,18 @@ impl<T: BitWrite> PackedWrite for T {
         let lower_bound = const_unwrap_or!(lower_bound_size, 0);
         let upper_bound = const_unwrap_or!(upper_bound_size, i64::MAX as u64);
         let length = len;
-        let fragmented = length > MAX_FRAGMENTS_SIZE;
         let out_of_range = length < lower_bound || length > upper_bound;
 
         if extensible {
             self.write_bit(out_of_range)?;
         }
 
-        if out_of_range {
+        let fragment_size = if out_of_range {
             if extensible {
                 // 16.6
                 // self.read_semi_constrained_whole_number(0)
                 // self.read_non_negative_binary_integer(0, MAX) + lb  | lb=0=>MIN for unsigned
-                self.write_length_determinant(None, None, length)?;
+                self.write_length_determinant(None, None, length)?
             } else {
                 return Err(ErrorKind::SizeNotInRange(length, lower_bound, upper_bound).into());
             }
@@ -669,33 +667,37 @@ impl<T: BitWrite> PackedWrite for T {
             && upper_bound < LENGTH_64K
         {
             // 16.10
+            None
         } else {
             // 16.11
-            self.write_length_determinant(lower_bound_size, upper_bound_size, length)?;
-        }
+            self.write_length_determinant(lower_bound_size, upper_bound_size, length)?
+        };
 
         self.write_bits_with_offset_len(
             src,
             offset as usize,
-            MAX_FRAGMENTS_SIZE.min(length) as usize,
+            fragment_size.unwrap_or(length) as usize,
         )?;
 
-        if fragmented {
-            let mut written_bits = MAX_FRAGMENTS_SIZE;
+        // 11.9.3.8: further fragments, each preceded by its own length determinant
+        if let Some(mut written_bits) = fragment_size {
             loop {
-                let fragment_size = (length - written_bits).min(MAX_FRAGMENTS_SIZE);
-                let fragment_size = fragment_size - (fragment_size % MIN_FRAGMENT_SIZE);
-                self.write_length_determinant(None, None, fragment_size)?;
+                let remaining = length - written_bits;
+                let fragment_size = self
+                    .write_length_determinant(None, None, remaining)?
+                    .unwrap_or(remaining);
+
                 self.write_bits_with_offset_len(
                     src,
                     (offset + written_bits) as usize,
                     fragment_size as usize,
                 )?;
-                written_bits += fragment_size;
 
                 if fragment_size < MIN_FRAGMENT_SIZE {
                     break;
                 }
+
+                written_bits += fragment_size;
             }
         }
 
